@@ -159,6 +159,23 @@ MetaDefined(pv, m) ==
     \* DSE continuous paging: only combinations whose layout the driver documents (no No_metadata, no new metadata id)
     /\ (IsSome(m.cont) => HasContPaging(pv) /\ ~m.nometa /\ ~IsSome(m.mdid))
 
+\* What the CALLER hands to the decoder as `result_metadata` (c.held): the column metadata of the prepared statement the
+\* request executed (PreparedStatement.result_metadata, cassandra/connection.py passes it for every EXECUTE), nothing
+\* for other requests.  4.2.5.2: a Rows result describes its own rows unless No_metadata is set - "this will only ever
+\* be the case if this was requested" - so the response's own metadata wins whenever it is present (the table may have
+\* been altered since PREPARE: v1-v4 the server just sends the current metadata, v5 flags Metadata_changed); what the
+\* caller holds describes the rows only under No_metadata.  Code: ResultMessage.recv_results_rows
+\* (`self.column_metadata or result_metadata`).
+StaleCols == << Col(S_ks, S_t1, S_a, T_vc), Col(S_ks, S_t1, S_b, T_int), Col(S_ks, S_t1, S_c, T_int) >>   \* retyped, one more
+HeldChoices(m, cols, n) ==
+    IF m.nometa THEN {Some(cols)}                          \* the server left the metadata out because the caller has it
+    ELSE IF n < 2 THEN {None}
+    ELSE {None,                                            \* not a prepared statement
+          Some(<<>>),                                      \* prepared statement without result columns
+          Some(cols),                                      \* held metadata is current
+          Some(IF Len(cols) = 2 THEN SubSeq(cols, 1, 1) ELSE StaleCols),     \* a column was added since PREPARE
+          Some(StaleCols)}                                 \* columns dropped / re-added with other types
+
 \* cell values: only int and varchar columns carry values (value codecs are C01/C02's subject); everything else is null
 CellFor(type, r) ==
     IF type = T_int THEN (IF r = 1 THEN V(I32(5)) ELSE IF r = 2 THEN V(I32(-2)) ELSE Null)
@@ -389,13 +406,14 @@ Init == \E fam \in Families, pv \in Versions : \E var \in Vars, x \in FxIdx(fam,
             /\ phase = "seed"
 
 \* scn / pos: scenario and position in it of a response that belongs to a sequence (EVOLVE); 0 otherwise
-EmitAt(cs, scn, pos) ==
+EmitFull(cs, scn, pos, held) ==
     /\ c' = [fam |-> c.fam, pv |-> c.pv, var |-> c.var, flags |-> HdrFlags(fx), opcode |-> cs.op,
              stream |-> IF cs.op = OP_EVENT THEN -1 ELSE IF c.var = 1 THEN 1 ELSE IF c.pv >= 3 THEN 300 ELSE 127,
-             body |-> Prefix(fx) \o cs.body, scn |-> scn, pos |-> pos]
+             body |-> Prefix(fx) \o cs.body, scn |-> scn, pos |-> pos, held |-> held]
     /\ exp' = cs.exp
     /\ phase' = "case"
     /\ UNCHANGED fx
+EmitAt(cs, scn, pos) == EmitFull(cs, scn, pos, None)
 Emit(cs) == EmitAt(cs, 0, 0)
 
 TourFx == ~Small \/ c.x = <<FALSE, FALSE, FALSE>>
@@ -411,7 +429,8 @@ Rows   == /\ c.fam = "ROWS"
           /\ \/ \E m \in MetaChoices(c.pv, c.var), two \in BOOLEAN, n \in 0..2 :     \* flag lattice x 1-2 columns x 0-2 rows
                   /\ MetaDefined(c.pv, m)
                   /\ LET cols == IF two THEN Cols2(m.global) ELSE Cols1(m.global) IN
-                     Emit(Case(OP_RESULT, RowsBody(m, cols, n), RowsExp(m, cols, n)))
+                     \E held \in HeldChoices(m, cols, n) :
+                        EmitFull(Case(OP_RESULT, RowsBody(m, cols, n), RowsExp(m, cols, n)), 0, 0, held)
              \/ \E i \in 1..Len(TypeTour), g \in (IF Small THEN {FALSE} ELSE BOOLEAN) :   \* tour of the column types
                   /\ TourFx /\ TypeIn(TypeTour[i], c.pv)
                   /\ Emit(Case(OP_RESULT, RowsBody(NoMore(g, FALSE), ColsT(i), 1), RowsExp(NoMore(g, FALSE), ColsT(i), 1)))
@@ -461,7 +480,12 @@ RowsFlagsOK == IsCase /\ c.opcode = OP_RESULT /\ exp.kind = "rows" =>
                   /\ (IsSome(exp.cont) => IsDse(c.pv))
                   /\ (IsSome(exp.metadata_id) => HasResultMetadataId(c.pv))
 
+\* the metadata that describes the rows (exp.cols) is the caller's exactly when the response carries none
+HeldOK == IsCase /\ c.opcode = OP_RESULT /\ exp.kind = "rows" /\ exp.nometa => c.held = Some(exp.cols)
+
 \* vacuity witnesses (expected to be VIOLATED)
+Witness_StaleHeld   == ~(IsCase /\ c.opcode = OP_RESULT /\ exp.kind = "rows" /\ ~exp.nometa /\ IsSome(c.held)
+                         /\ c.held # Some(exp.cols) /\ IsSome(exp.metadata_id))
 Witness_Warnings    == ~(IsCase /\ IsSome(fx.warnings) /\ IsSome(fx.trace) /\ IsSome(fx.payload))
 Witness_ReasonMap   == ~(IsCase /\ c.opcode = OP_ERROR /\ exp.code = 4864 /\ HasReasonMap(c.pv))
 Witness_MetadataId  == ~(IsCase /\ c.opcode = OP_RESULT /\ exp.kind = "rows" /\ IsSome(exp.metadata_id))
